@@ -22,7 +22,7 @@ def sh(cmd, cwd=None, timeout=1800):
 
 
 def clean_repo():
-    sh("git checkout -- . && rm -f jqawk", cwd=REPO)
+    sh("git checkout -- . && git clean -fdq && rm -f jqawk", cwd=REPO)
     rc, out = sh("git status --short", cwd=REPO)
     return out.strip() == ""
 
